@@ -39,6 +39,14 @@ META = dict(
          "max_async_tasks / prefetch / max tasks / wait timeout, options given on the worker command line, delivery through a whole "
          "listen() session, a new Receiver per delivery, sync / async task function, generator dependencies, a failing dependency, "
          "failure by timeout label or by a falsy exception object, other middlewares around the retry middleware, a subclass of it. "
+         "In about a quarter of those the exception a failing attempt dies of is itself varied (one or several per chain): every "
+         "exception class the taskiq under test ships (enumerated in the driver at run time), failures produced by taskiq's own "
+         "code called from the task (wait_result / gather with a timeout on a sub-task whose result never arrives, a failing "
+         "result backend, ctx.reject(), kiq on a shared broker), builtin / asyncio / concurrent.futures exceptions, user "
+         "subclasses of all of them (also named like taskiq's classes, with odd __bool__ / __eq__ / __hash__), exception groups, "
+         "exceptions chained to a NoResultError, the same exception object re-used, a bare class; and the no-result signal as "
+         "NoResultError or a user's subclass of it. Whether an attempt failed or signalled no-result is the case's choice "
+         "(never read off taskiq's class hierarchy). "
          "About a tenth of the cases have typed arguments: the task function's parameters are annotated with pydantic models "
          "(constant defaults, default_factory defaults that yield a fresh value per construction, Optional / nested / aliased / "
          "extra fields, non-JSON field types), dataclasses, containers of them, plain types or nothing; the caller passes instances "
@@ -53,7 +61,9 @@ META = dict(
                   "/ dataclasses.asdict as the documented wire form of a model / dataclass argument",
                   "harness/drivers/retry_driver.py + labels_driver.py: recording broker / middleware / result backend; the env "
                   "building blocks of retry_driver.py (task function shapes, bystander middlewares, listen-session wrapper) and "
-                  "harness/cli_glue.py (real WorkerArgs.from_cli + start_listen with its imports replaced)"],
+                  "harness/cli_glue.py (real WorkerArgs.from_cli + start_listen with its imports replaced); the exception "
+                  "builder of retry_driver.py (specs -> exception objects, ChildBackend / DropBroker for sub-tasks that never "
+                  "finish, the module global `time` of taskiq.task / taskiq.funcs bound to the virtual clock)"],
     assumptions=["label keys are distinct (Python dict); the labels the message is sent with hold values of the five primitive "
                  "types; max_retries and _retries, when present, are int / bool / [+-]digits str (otherwise int() raises: model "
                  "answer DCrash, compared by the correspondence, outside the theorems)"],
@@ -124,6 +134,137 @@ TIMEOUT_VALUES = [{"t": "int", "v": "1"}, {"t": "float", "v": "3fe0000000000000"
                   {"t": "int", "v": "2"}, {"t": "float", "v": "3fb999999999999a"}]
 
 
+# ------------------------------------------------------------------ the exception a failing attempt dies of (env["exc"]) and
+# the class of the no-result signal (env["nr"]); spec format: retry_driver.py, "how an attempt fails".  Whether an attempt is a
+# failure or the no-result signal is the CASE's choice (outs), never something taskiq's class hierarchy is asked about.
+# EXC_INFO is replaced at run time by what the driver finds in the taskiq package of the tree under test (exception_info);
+# the values here are only what replay / an unreachable driver fall back to.
+EXC_INFO = dict(
+    taskiq_excs=[["taskiq.exceptions", n] for n in (
+        "BrokerError", "ListenError", "ResultBackendError", "ResultGetError", "ResultIsReadyError", "ResultSetError",
+        "ScheduledTaskCancelledError", "SecurityError", "SendTaskError", "SharedBrokerListenError", "SharedBrokerSendTaskError",
+        "TaskBrokerMismatchError", "TaskRejectedError", "TaskiqError", "TaskiqResultTimeoutError", "UnknownTaskError")],
+    builtins=["Exception", "ValueError", "KeyError", "RuntimeError", "OSError", "TimeoutError", "asyncio.TimeoutError"],
+    real=["wait_result", "wait_result_sent", "gather", "is_ready_raises", "get_result_raises", "reject", "shared_kiq"],
+    skipped=[], source="static fallback")
+ALSO_BASES = ["ValueError", "RuntimeError", "KeyError", "TimeoutError", "Exception"]
+USER_NAMES = ["UserError", "UserError", "SubTaskTimeout", "NoResultError", "TaskiqResultTimeoutError", "Error"]
+USER_TRAITS = ["falsy", "eq_all", "unhashable"]
+NR_KINDS = ["nr", "nr", "nr_sub", "nr_sub", "nr_subsub"]
+
+
+def exception_info(ctx, rep):
+    """ask the driver (one child process) which exception classes the taskiq under test ships"""
+    o = C.run_driver(ctx, DRIVER, [{"enumerate_excs": True}], nproc=1)[0]
+    if "_crash" in o or not o.get("taskiq_excs"):
+        rep.fail("driver crashed", {"enumerate_excs": True}, observed=o.get("_crash", o), sig=dict(kind="crash"))
+        return
+    EXC_INFO.update(o, source="enumerated in the driver process")
+    rep.extra["exception_classes"] = dict(EXC_INFO)
+
+
+def tq_spec(mn):
+    return {"k": "taskiq", "mod": mn[0], "name": mn[1]}
+
+
+def gen_exc(r, depth=0):
+    k = r.random()
+    if k < .30:
+        spec = tq_spec(r.choice(EXC_INFO["taskiq_excs"]))
+    elif k < .48:
+        spec = {"k": "real", "how": r.choice(EXC_INFO["real"])}
+    elif k < .62:
+        spec = {"k": "builtin", "name": r.choice(EXC_INFO["builtins"])}
+    elif k < .84 or depth:
+        tq = r.random() < .65
+        spec = {"k": "user", "base": tq_spec(r.choice(EXC_INFO["taskiq_excs"])) if tq else
+                {"k": "builtin", "name": r.choice(EXC_INFO["builtins"])}, "name": r.choice(USER_NAMES)}
+        if tq and r.random() < .3:
+            spec["also"] = r.choice(ALSO_BASES)
+        if r.random() < .25:
+            spec["traits"] = sorted(r.sample(USER_TRAITS, r.choice([1, 1, 2])))
+    else:
+        return {"k": "group", "of": [gen_exc(r, depth + 1) for _ in range(r.choice([1, 2, 2, 3]))]}
+    if depth == 0 and r.random() < .18:
+        spec["chain"] = r.choice(["cause_nr", "context_nr", "cause_other"])
+    if depth == 0 and spec["k"] != "real" and r.random() < .1:
+        spec["reuse"] = True
+    if depth == 0 and spec["k"] != "real" and r.random() < .1:
+        spec["bare"] = True
+    return spec
+
+
+def gen_exc_list(r):
+    return [gen_exc(r) for _ in range(r.choice([1, 1, 1, 1, 2, 2, 3]))]
+
+
+def gen_nr(r):
+    spec = {"k": r.choice(NR_KINDS)}
+    if r.random() < .3:
+        spec["chain"] = r.choice(["cause_fail", "context_fail"])
+    if r.random() < .2:
+        spec["bare"] = True
+    return spec
+
+
+def exc_grid():
+    """every exception class the taskiq under test ships, every real failing path, every builtin of the driver's table, user
+    subclasses, groups, chained / re-used / bare exceptions, the kinds of no-result signal - always run"""
+    def mk(outs, labels, count, label, nror):
+        return dict(ser="json", mw=dict(count=count, label=label, nror=nror), labels=labels, outs=outs, args=[1, "x"],
+                    kwargs={"kw": "v"}, guard=30)
+    ffs = mk(["F", "F", "S"], [[K("max_retries"), {"t": "int", "v": "3"}], [K("retry_on_error"), {"t": "bool", "v": True}]], 2, False, True)
+    fff = mk(["F"], [[K("u"), {"t": "str", "v": K("user")}]], 4, True, False)
+    fn_ = mk(["F", "N"], [[K("max_retries"), {"t": "str", "v": K("5")}], [K("retry_on_error"), {"t": "str", "v": K("True")}]], 1, False, True)
+    out = []
+
+    def add(base, exc, **env):
+        out.append(with_env(base, dict(env, fail_by="exc", exc=exc if isinstance(exc, list) else [exc])))
+
+    tq = [tq_spec(mn) for mn in EXC_INFO["taskiq_excs"]]
+    for i, sp in enumerate(tq):
+        add(ffs, sp)
+        add((fff, fn_)[i % 2], sp, **({"propagate": False} if i % 3 == 0 else {}))
+        add(ffs, {"k": "user", "base": sp, "name": "UserError"})
+        if i % 2 == 0:
+            add(fff, {"k": "user", "base": sp, "name": USER_NAMES[2 + i // 2 % 4], "also": ALSO_BASES[i // 2 % len(ALSO_BASES)]})
+    for i, how in enumerate(EXC_INFO["real"]):
+        sp = {"k": "real", "how": how}
+        add(ffs, sp)
+        add(fff, sp, propagate=False)
+        add(fn_, sp, fn=("gen_dep", "agen_dep", "dep_fails")[i % 3])
+        add(ffs, sp, via="listen", ackable="async", A=None)
+        add(ffs, sp, fn="sync")             # a plain function cannot await: the class the path raises, directly
+    for i, n in enumerate(EXC_INFO["builtins"]):
+        add((ffs, fff, fn_)[i % 3], {"k": "builtin", "name": n})
+    for n in ("ValueError", "Exception", "TimeoutError"):
+        add(ffs, {"k": "user", "base": {"k": "builtin", "name": n}, "name": "NoResultError"})
+    for t in USER_TRAITS:
+        add(ffs, {"k": "user", "base": tq[len(tq) // 2], "name": "UserError", "traits": [t]})
+        add(fff, {"k": "user", "base": {"k": "builtin", "name": "RuntimeError"}, "name": "UserError", "traits": [t]}, propagate=False)
+    add(ffs, {"k": "group", "of": [tq[0], {"k": "builtin", "name": "ValueError"}]})
+    add(fff, {"k": "group", "of": tq[-3:]})
+    add(fn_, {"k": "group", "of": [{"k": "builtin", "name": "TimeoutError"}]})
+    for i, ch in enumerate(("cause_nr", "context_nr", "cause_other")):
+        add(ffs, {"k": "builtin", "name": "ValueError", "chain": ch})
+        add(fff, dict(tq[(5 * i + 1) % len(tq)], chain=ch))
+        add(ffs, {"k": "real", "how": EXC_INFO["real"][i % len(EXC_INFO["real"])], "chain": ch})
+    add(ffs, {"k": "builtin", "name": "ValueError", "reuse": True})
+    add(fff, dict(tq[-1], reuse=True))
+    add(ffs, {"k": "builtin", "name": "KeyError", "bare": True})
+    add(fff, dict(tq[0], bare=True))
+    add(mk(["F", "F", "F", "S"], ffs["labels"][:1] + [[K("retry_on_error"), {"t": "str", "v": K("TRUE")}]], 1, False, True),
+        [{"k": "builtin", "name": "ValueError"}, {"k": "real", "how": EXC_INFO["real"][0]}, tq[len(tq) // 3]])
+    add(fff, [{"k": "real", "how": EXC_INFO["real"][-1]}, {"k": "builtin", "name": "KeyError"}], fn="gen_dep")
+    # the no-result signal: NoResultError, a user's subclass of it, raised bare / from a failure / while handling one
+    for i, nr in enumerate(({"k": "nr"}, {"k": "nr_sub"}, {"k": "nr_subsub"}, {"k": "nr", "bare": True}, {"k": "nr_sub", "chain": "cause_fail"},
+                            {"k": "nr", "chain": "context_fail"}, {"k": "nr_subsub", "chain": "context_fail", "bare": True})):
+        out.append(with_env(fn_, {"nr": nr}))
+        out.append(with_env(mk(["N"], fff["labels"], 3, True, i % 2 == 0), {"nr": nr, "propagate": i % 3 != 0}))
+        out.append(with_env(fn_, {"nr": nr, "fail_by": "exc", "exc": [tq[(3 * i) % len(tq)]], "fn": ("sync", "async", "dep_fails")[i % 3]}))
+    return out
+
+
 def with_env(case, env):
     """attach env to a copy of case; a failure by timeout needs the task's `timeout` label"""
     case = dict(case, labels=list(case["labels"]), env=env)
@@ -162,6 +303,11 @@ def gen_env(r):
         env["timeout_label"] = r.choice(TIMEOUT_VALUES)
     elif k < .5:
         env["timeout_label"] = r.choice(TIMEOUT_VALUES)     # a timeout that is never reached
+    elif k < .78:
+        env["fail_by"] = "exc"
+        env["exc"] = gen_exc_list(r)
+    if r.random() < .25:
+        env["nr"] = gen_nr(r)
     if r.random() < .5:
         env["propagate"] = False
     if r.random() < .3:
@@ -341,6 +487,48 @@ def count_env(rep, c, o):
         rep.count("env:middlewares-added-after-receiver-construction")
     if len(o.get("execs", [])) > 1:
         rep.count("env:cases-with-a-re-send")
+    count_exc(rep, c, o)
+
+
+def exc_label(sp):
+    k = sp["k"]
+    if k in ("taskiq", "builtin"):
+        return "%s:%s" % (k, sp["name"])
+    if k == "real":
+        return "taskiq-code-path:" + sp["how"]
+    if k == "user":
+        return "user-subclass-of:%s%s" % (exc_label(sp["base"]), "+" + sp["also"] if sp.get("also") else "")
+    return "group-of-%d" % len(sp["of"])
+
+
+def count_exc(rep, c, o):
+    env = c["env"]
+    nr = env.get("nr")
+    if nr is not None and "N" in c["outs"]:
+        rep.count("exc:no-result-signal=%s%s%s" % ({"nr": "NoResultError", "nr_sub": "user-subclass", "nr_subsub": "user-sub-subclass"}[nr["k"]],
+                                                    "/bare-class" if nr.get("bare") else "", "/" + nr["chain"] if nr.get("chain") else ""))
+    if env.get("fail_by") != "exc":
+        return
+    rep.count("exc:cases")
+    specs = env["exc"] if isinstance(env["exc"], list) else [env["exc"]]
+    rep.count("exc:distinct-failures-in-one-chain=%d" % len(specs))
+    for sp in specs:
+        rep.count("exc:failure=" + exc_label(sp))
+        if sp["k"] == "user":
+            rep.count("exc:user-class-named=" + sp.get("name", "UserError"))
+            for t in sp.get("traits", []):
+                rep.count("exc:user-class-trait=" + t)
+        for flag in ("chain", "reuse", "bare"):
+            if sp.get(flag):
+                rep.count("exc:%s%s" % (flag, "=" + sp[flag] if flag == "chain" else ""))
+    raised = o.get("raised_log") or []
+    for ent in raised:
+        if ent["spec"].get("k") not in ("nr", "nr_sub", "nr_subsub") and ent["cls"].startswith("taskiq."):
+            rep.count("exc:taskiq-class-raised-by-a-failing-attempt=" + ent["cls"] + (" (raised directly: a plain function cannot await)"
+                                                                              if ent["spec"].get("direct") else ""))
+    ex = o.get("execs", [])
+    if len(ex) > 1 and any(e["out"] == "F" for e in ex[:-1]):
+        rep.count("exc:cases-with-a-re-send-after-such-a-failure")
 
 
 def lab(case, name):
@@ -611,7 +799,8 @@ def run(ctx):
     r = ctx.sub_rng("gen")
     broken = explore(ctx, rep, [gen_case(r) for _ in range(ctx.n(1500, 40000))], "main") or broken
     re_ = ctx.sub_rng("env")
-    broken = explore(ctx, rep, env_grid() + [gen_env_case(re_) for _ in range(ctx.n(400, 12000))], "env") or broken
+    exception_info(ctx, rep)
+    broken = explore(ctx, rep, env_grid() + exc_grid() + [gen_env_case(re_) for _ in range(ctx.n(400, 12000))], "env") or broken
     rt = ctx.sub_rng("typed")
     broken = explore(ctx, rep, typed_grid() + [gen_typed_case(rt) for _ in range(ctx.n(300, 9000))], "typed") or broken
     known_alias(ctx, rep)
@@ -663,6 +852,10 @@ def replay(ctx, path):
         if c.get("typed") is not None:
             print("   received arguments:", json.dumps(e["args"][1] if e["args"] else e["args"], sort_keys=True)[:1500])
     print("statement domain (enabled, max_retries):", in_domain(c))
+    if o.get("raised_log"):
+        print("exceptions raised by the attempts (chosen by the case, env['exc'] / env['nr']):",
+              json.dumps([[exc_label(e["spec"]) if e["spec"].get("k") not in NR_KINDS else "no-result signal " + e["spec"]["k"],
+                           e["cls"]] for e in o["raised_log"]]))
     if c.get("env") is not None:
         print("worker configuration (env):", json.dumps(c["env"]), "| Receiver kwargs from the command line:", o.get("cli_kw"),
               "| acks:", o.get("acks"), "| dependency teardown:", o.get("teardown"))
